@@ -90,9 +90,10 @@ def iter_next(I, st, caller, it):
                 s2.mem[(fr, 0)] = item
                 cargs = [Ref(fr, 0, ())]
             for o in call_closure(I, s2, caller, clos_ty, clos_val, cargs):
-                if o.kind != "return":
-                    raise Unencodable("closure of iterator adaptor did not return: %s" % o.msg)
                 nit = mk_iter(inner2, pos + 1, mode, extra)
+                if o.kind != "return":
+                    res.append((o.state, nit, o))  # a panicking closure: the Outcome itself travels as the item
+                    continue
                 if mode == "map":
                     res.append((o.state, nit, o.value))
                 elif mode == "filter_map":
@@ -129,6 +130,8 @@ def drain(I, st, caller, it):
         for s2, nit, item in iter_next(I, s, caller, cur):
             if item is None:
                 done.append((s2, acc))
+            elif isinstance(item, Outcome):
+                done.append((s2, item))
             else:
                 work.append((s2, nit, acc + [item]))
     return done
@@ -178,6 +181,9 @@ def container_models(I, st, caller, func, args, argtys, dest_ty):
         if isinstance(it, Agg) and it.kind == "iter":
             outs = []
             for s2, nit, item in iter_next(I, st.fork(), caller, it):
+                if isinstance(item, Outcome):
+                    outs.append(item)
+                    continue
                 I.store(s2, args[0], nit)
                 outs.append(Outcome("return", mk_option(item is not None, item), s2))
             return outs
@@ -200,6 +206,9 @@ def container_models(I, st, caller, func, args, argtys, dest_ty):
         target = norm_type(m.group(2))
         outs = []
         for s2, items in drain(I, st.fork(), caller, args[0]):
+            if isinstance(items, Outcome):
+                outs.append(items)
+                continue
             if target.startswith("Vec<"):
                 outs.append(Outcome("return", Agg("vec", None, tuple(items)), s2))
             elif target.startswith("Result<Vec<"):
